@@ -54,6 +54,15 @@ const FLAGS: [&str; 3] = ["fa", "fb", "fc"];
 const VALS: [&str; 4] = ["red", "blue", "7", "x1"];
 
 pub fn gen_cond(g: &mut Gen) -> Vec<String> {
+    // conditions whose evaluation is OBSERVABLE: `emit` in command position logs its arguments
+    // and yields no value (falsy); `not emit …` is truthy. A condition that is evaluated although
+    // the structured reading never reaches it (e.g. an elseif after a branch that already ran)
+    // shows up in the trace.
+    if g.rng.chance(1, 6) {
+        let tag = format!("q{}", g.next_id);
+        g.next_id += 1;
+        return if g.rng.chance(1, 2) { vec!["emit".into(), tag, "${n0}".into()] } else { vec!["not".into(), "emit".into(), tag, "${v0}".into()] };
+    }
     match g.rng.below(9) {
         0 => vec!["true".into()],
         1 => vec!["false".into()],
